@@ -6,10 +6,13 @@ import vlib
 from checks import views
 
 
+TWIN_OPS = {"rotated", "transposed", "strided", "taked", "dropped", "reversed", "sliced", "paren"}
+
+
 def base_constants():
     return {"MaxD": 3, "MaxExt": 3, "MaxDepth": 1, "MaxDim": 5, "Bases": vlib.Sub("BasesZero"), "OpNames": set(views.ALL_OPS),
             "ParenArgs": 3, "ParenLean": True, "OneDimQuirk": False, "Emit": True,
-            "Kinds": {"outer", "elems"}, "Offsets": vlib.Sub("OffsetsSmall"), "MaxProg": 2, "MaxN": 6, "Merge": True}
+            "Kinds": {"outer", "elems"}, "Offsets": vlib.Sub("OffsetsSmall"), "MaxProg": 2, "MaxN": 6, "Merge": True, "TwinOps": set()}
 
 
 def runs(tier):
@@ -19,6 +22,9 @@ def runs(tier):
     # path coverage: every program of length <= 3 (no merging) on 2-D roots and their depth-1 views
     c2 = base_constants(); c2.update({"MaxD": 2, "MaxExt": 2, "Merge": False, "MaxProg": 2, "MaxN": 4})
     r.append(("c02_paths", c2, None))
+    # iterators re-seated between a view and a twin view of the same root (one more operation away)
+    ct = base_constants(); ct.update({"MaxD": 2, "MaxExt": 3, "MaxDepth": 0, "TwinOps": TWIN_OPS, "MaxProg": 2, "Offsets": vlib.Sub("OffsetsOne")})
+    r.append(("c02_twin", ct, None))
     if tier == "thorough":
         c3 = base_constants(); c3.update({"MaxDepth": 2, "MaxExt": 2, "MaxN": 8, "Offsets": vlib.Sub("OffsetsWide")})
         r.append(("c02_edges_depth2", c3, None))
@@ -34,6 +40,10 @@ def line(pid, rec):
     parts = ["I"] + base[1:] + [rec["kind"], str(rec["pos"][0]), str(rec["pos"][1]), str(len(rec["prog"]))]
     for o in rec["prog"]:
         parts += [o["op"], str(o["r"]), str(o["s"]), str(o["n"])]
+    tw = rec["twin"]
+    parts += ["T", "0" if tw["op"] == "none" else "1", str(rec["rng"][0]), str(rec["rng"][1])]
+    if tw["op"] != "none":
+        parts += [tw["op"], str(len(tw["args"]))] + [str(a) for a in tw["args"]]
     return " ".join(parts) + "\n"
 
 
@@ -60,22 +70,32 @@ def compare(exp, o):
     def chk(name, want, got):
         if want != got:
             bad.append((name, want, got))
+    n1, n2 = exp["ns"]
+    same = exp["rng"][0] == exp["rng"][1]
     chk("end-begin", n, o.get("n"))
+    chk("end-begin(range of register)", [n1, n2], o.get("ns"))
     chk("it-begin", [p1, p2], o.get("pos"))
-    chk("end-it", [n - p1, n - p2], o.get("rem"))
-    chk("r1-r2", p1 - p2, o.get("diff"))
-    chk("comparisons", [int(p1 == p2), int(p1 != p2), int(p1 < p2), int(p1 <= p2), int(p1 > p2), int(p1 >= p2)], o.get("cmp"))
-    chk("vs_begin_end", [int(p1 == 0), int(p1 == n), int(0 < p1), int(p1 < n), int(p2 == 0), int(p2 == n), int(0 < p2), int(p2 < n)], o.get("cmp_ends"))
+    chk("end-it", [n1 - p1, n2 - p2], o.get("rem"))
+    if same:   # iterators into different ranges are not comparable
+        chk("r1-r2", p1 - p2, o.get("diff"))
+        chk("comparisons", [int(p1 == p2), int(p1 != p2), int(p1 < p2), int(p1 <= p2), int(p1 > p2), int(p1 >= p2)], o.get("cmp"))
+    chk("vs_begin_end", [int(p1 == 0), int(p1 == n1), int(0 < p1), int(p1 < n1), int(p2 == 0), int(p2 == n2), int(0 < p2), int(p2 < n2)], o.get("cmp_ends"))
     chk("deref_r1", exp["item"][0], o.get("item1"))
     chk("deref_r2", exp["item"][1], o.get("item2"))
-    chk("it[n]", exp["firsts"], o.get("firsts"))
+    chk("it[n]_r1", exp["firsts_r"][0], o.get("firsts1"))
+    chk("it[n]_r2", exp["firsts_r"][1], o.get("firsts2"))
+    for k, (p, nk) in enumerate(((p1, n1), (p2, n2))):
+        f = exp["firsts_r"][k]
+        want = {"item": exp["item"][k], "next": [f[p + 1]] if p + 1 < nk else [], "prev": [f[p - 1]] if p > 0 and nk > 0 else [], "pos": p, "eq": 1}
+        chk("converted_to_const_iterator_r%d" % (k + 1), want, o.get("conv%d" % (k + 1)))
     chk("copy_equal", 1, o.get("copy_eq"))
     chk("const_equal", 1, o.get("const_eq"))
     if exp["kind"] == "elems" and n > 0:
+        pp = p1 if exp["rng"][0] == 0 else 0
         chk("front", exp["firsts"][0], o.get("front"))
         chk("back", exp["firsts"][-1], o.get("back"))
-        if p1 < n:
-            chk("elements[k]", exp["firsts"][p1], o.get("at_p1"))
+        if pp < n:
+            chk("elements[k]", exp["firsts"][pp], o.get("at_p1"))
     return bad
 
 
@@ -99,11 +119,13 @@ def run(tier):
         exps, lines = [], []
         seen = set()
         for rec in vlib.emitted(res.out_path):
-            k = json.dumps([rec["root"], rec["path"], rec["kind"], rec["prog"]], sort_keys=True)
+            k = json.dumps([rec["root"], rec["path"], rec["kind"], rec["prog"], rec["twin"]], sort_keys=True)
             if k in seen:
                 continue
             seen.add(k)
             rec["empty"] = (len(rec["firsts"]) == 0 and rec["n"] == 0) or any(f == -1 for f in rec["firsts"]) or 0 in rec["root"]["shape"]
+            if rec["twin"]["op"] != "none" and not rec["empty"] and (0 in rec["ns"] or any(f == -1 for fr in rec["firsts_r"] for f in fr)):
+                continue   # a twin without elements: nothing to re-seat into
             exps.append(rec)
             lines.append(line(len(exps) - 1, rec))
         if not exps:
